@@ -8,6 +8,7 @@
 //   TRACK <path>...            paths to observe (relative to the sandbox)
 //   FRONTEND <llbuild text> <db 0|1> <serial 0|1> [cancel-on-failure 0|1]     new BuildSystemFrontend
 //   WRITE <path> <content> | TOUCH <path> | RM <path> | MKDIR <path> | RENAME <a> <b> | SYMLINK <target> <path>
+//   SKIP <command>...          commands the delegate refuses to start (shouldCommandStart) in the NEXT build only
 //   BUILD <target> | BUILDNODE <node>
 // File times: a logical clock - every mutation sets the mtime of what it changed (and of the containing
 // directory) to a strictly increasing whole second, and the file .vb holds the base the commands of the next
@@ -111,6 +112,12 @@ static const char* statusStr(ProcessStatus s) {
 class Delegate : public BuildSystemFrontendDelegate {
 public:
   bool cancelOnFailure = false;
+  std::set<std::string> refuse;        // shouldCommandStart answers false for these (next build only)
+  bool shouldCommandStart(Command* c) override {
+    bool no = refuse.count(c->getName().str()) != 0;
+    emit("{\"e\":\"ShouldStart\",\"c\":" + jstr(c->getName().str()) + ",\"answer\":" + (no ? "false" : "true") + "}");
+    return !no;
+  }
   Delegate(llvm::SourceMgr& sm) : BuildSystemFrontendDelegate(sm, "basic", /*version=*/0) {}
   std::unique_ptr<Tool> lookupTool(StringRef) override { return nullptr; }
   void hadCommandFailure() override {
@@ -359,6 +366,7 @@ int main(int argc, char** argv) {
     else if (op == "MKDIR") { mkdirs(a[0]); snapshotFS("Mutate"); }
     else if (op == "RENAME") { mkdirs(parentOf(a[1])); rmTree(a[1]); if (rename(a[0].c_str(), a[1].c_str()) == 0) { stampDirOnly(a[0]); stamp(a[1]); } snapshotFS("Mutate"); }
     else if (op == "SYMLINK") { mkdirs(parentOf(a[1])); rmTree(a[1]); if (symlink(a[0].c_str(), a[1].c_str()) == 0) stamp(a[1]); snapshotFS("Mutate"); }
+    else if (op == "SKIP") { delegate->refuse.clear(); for (auto& x : a) if (!x.empty()) delegate->refuse.insert(x); }
     else if (op == "BUILD" || op == "BUILDNODE") {
       clockNow += 200;
       { std::ofstream f(".vb"); f << clockNow - 100; }       // commands stamp their outputs with .vb + index (< 100)
@@ -367,6 +375,7 @@ int main(int argc, char** argv) {
       bool ok = op == "BUILD" ? frontend->build(a[0]) : frontend->buildNode(a[0]);
       alarm(0);
       emit(std::string("{\"e\":\"BuildEnd\",\"ok\":") + (ok ? "true" : "false") + "}");
+      delegate->refuse.clear();
       snapshotFS("FS");
       snapshotDB(hasDB);
     }
